@@ -206,3 +206,32 @@ func (r *ChunkReader) Read(p []byte) (int, error) {
 	}
 	return n, nil
 }
+
+// Snapshot reads every file below dir (relative path -> contents).
+func Snapshot(dir string) map[string][]byte {
+	m := map[string][]byte{}
+	filepath.Walk(dir, func(p string, fi os.FileInfo, err error) error {
+		if err == nil && !fi.IsDir() {
+			b, _ := os.ReadFile(p)
+			rel, _ := filepath.Rel(dir, p)
+			m[rel] = b
+		}
+		return nil
+	})
+	return m
+}
+
+// Restore makes the files below dir equal to the snapshot again.
+func Restore(dir string, snap map[string][]byte) {
+	cur := Snapshot(dir)
+	for rel := range cur {
+		if _, ok := snap[rel]; !ok {
+			os.Remove(filepath.Join(dir, rel))
+		}
+	}
+	for rel, b := range snap {
+		if c, ok := cur[rel]; !ok || string(c) != string(b) {
+			os.WriteFile(filepath.Join(dir, rel), b, 0o666)
+		}
+	}
+}
